@@ -1,6 +1,11 @@
-(** Correspondence cases for C20: kernels on binary64 with the recorded libm table. *)
-From Coq Require Import List Floats ZArith.
+(** Correspondence cases for C20: kernels on binary64 with the recorded libm table.
+    The matrix forms are checked TWICE against the implementation's outcome: against the net entry formula
+    ([rbf_matrix] / [rq_matrix], the object of the real-carrier theorems) and against the composition of the verified
+    component models in the order the Rust code calls them ([Model/KernelsPlumbing.v]; the two are proved equal in
+    Proofs/C20_plumbing.v).  The [CRbfP] / [CRqP] cases (any Matrix shape, empty point sets) run the composition only. *)
+From Coq Require Import List Floats ZArith Bool.
 From Compute Require Export Base.Ops Model.Kernels.
+From Compute Require Import Model.Shape Model.Broadcast Model.KernelsPlumbing.
 Import ListNotations.
 
 Inductive case :=
@@ -8,18 +13,51 @@ Inductive case :=
 | CRq (t : libm_table) (var alpha ls x y : float) (e : outcome (list float))
 | CRbfM (t : libm_table) (form : nat) (var ls : float) (xs ys : list float) (e : outcome (list float))
 | CRqM (t : libm_table) (form : nat) (var alpha ls : float) (xs ys : list float) (e : outcome (list float))
+| CRbfP (t : libm_table) (kind : nat) (var ls : float) (rx cx : nat) (xs : list float) (ry cy : nat) (ys : list float)
+        (e : outcome (list float))
+| CRqP (t : libm_table) (kind : nat) (var alpha ls : float) (rx cx : nat) (xs : list float) (ry cy : nat) (ys : list float)
+       (e : outcome (list float))
 | CRbfNew (var ls : float) (e : outcome (list float))
 | CRqNew (var alpha ls : float) (e : outcome (list float)).
 
 Definition mat_out (nr nc : nat) (m : list (list float)) : list float :=
   float_ofZ (Z.of_nat nr) :: float_ofZ (Z.of_nat nc) :: concat m.
+Definition bmat_out (m : Broadcast.mat float) : list float :=
+  float_ofZ (Z.of_nat (Broadcast.nr m)) :: float_ofZ (Z.of_nat (Broadcast.nc m)) :: Broadcast.dat m.
+
+(** argument of kind 0 = Vector, 1 = &Vector, 2 = Matrix, 3 = &Matrix (an [r] x [c] Matrix for the last two) *)
+Definition arg_of (kind r c : nat) (d : list float) : karg float :=
+  match kind with
+  | 0 => KVector d | 1 => KRefVector d | 2 => KMatrix (mkMat r c d) | _ => KRefMatrix (mkMat r c d)
+  end.
+(** the four forms of the [CRbfM] / [CRqM] cases (harness [rbf_m] / [rq_m]): Vector, &Vector, (1 x n Matrix, m x 1 Matrix),
+    (&(n x 1 Matrix), &(1 x m Matrix)) *)
+Definition form_args (form : nat) (xs ys : list float) : karg float * karg float :=
+  match form with
+  | 0 => (KVector xs, KVector ys)
+  | 1 => (KRefVector xs, KRefVector ys)
+  | 2 => (KMatrix (mkMat 1 (length xs) xs), KMatrix (mkMat (length ys) 1 ys))
+  | _ => (KRefMatrix (mkMat (length xs) 1 xs), KRefMatrix (mkMat 1 (length ys) ys))
+  end.
 
 Definition check (c : case) : bool :=
   match c with
   | CRbf t var ls x y e => fout_eqb (Val [rbf (FO t) var ls x y]) e
   | CRq t var alpha ls x y e => fout_eqb (Val [rq (FO t) var alpha ls x y]) e
-  | CRbfM t _ var ls xs ys e => fout_eqb (Val (mat_out (length xs) (length ys) (rbf_matrix (FO t) var ls xs ys))) e
-  | CRqM t _ var alpha ls xs ys e => fout_eqb (Val (mat_out (length xs) (length ys) (rq_matrix (FO t) var alpha ls xs ys))) e
+  | CRbfM t form var ls xs ys e =>
+      fout_eqb (Val (mat_out (length xs) (length ys) (rbf_matrix (FO t) var ls xs ys))) e
+      && let (ax, ay) := form_args form xs ys in
+         fout_eqb (opt_out (option_map bmat_out (rbf_forward_plumbing (FO t) var ls ax ay))) e
+  | CRqM t form var alpha ls xs ys e =>
+      fout_eqb (Val (mat_out (length xs) (length ys) (rq_matrix (FO t) var alpha ls xs ys))) e
+      && let (ax, ay) := form_args form xs ys in
+         fout_eqb (opt_out (option_map bmat_out (rq_forward_plumbing (FO t) var alpha ls ax ay))) e
+  | CRbfP t kind var ls rx cx xs ry cy ys e =>
+      fout_eqb (opt_out (option_map bmat_out
+                  (rbf_forward_plumbing (FO t) var ls (arg_of kind rx cx xs) (arg_of kind ry cy ys)))) e
+  | CRqP t kind var alpha ls rx cx xs ry cy ys e =>
+      fout_eqb (opt_out (option_map bmat_out
+                  (rq_forward_plumbing (FO t) var alpha ls (arg_of kind rx cx xs) (arg_of kind ry cy ys)))) e
   | CRbfNew var ls e => fout_eqb (opt_out (option_map (fun _ => []) (rbf_new FO0 var ls))) e
   | CRqNew var alpha ls e => fout_eqb (opt_out (option_map (fun _ => []) (rq_new FO0 var alpha ls))) e
   end.
